@@ -8,6 +8,7 @@ pub mod c07;
 pub mod c08;
 pub mod c11;
 pub mod c13;
+pub mod c14;
 pub mod c15;
 pub mod c16;
 pub mod lsp_tiers;
@@ -29,6 +30,7 @@ fn table(id: &str) -> Option<(Run, Judge, &'static str, &'static [&'static str])
         "C08" => Some((c08::run, c08::judge, c08::RULE, c08::ASSUMPTIONS)),
         "C11" => Some((c11::run, c11::judge, c11::RULE, c11::ASSUMPTIONS)),
         "C13" => Some((c13::run, c13::judge, c13::RULE, c13::ASSUMPTIONS)),
+        "C14" => Some((c14::run, c14::judge, c14::RULE, c14::ASSUMPTIONS)),
         "C15" => Some((c15::run, c15::judge, c15::RULE, c15::ASSUMPTIONS)),
         "C16" => Some((c16::run, c16::judge, c16::RULE, c16::ASSUMPTIONS)),
         "C06" => Some((c06::run, c06::judge, c06::RULE, c06::ASSUMPTIONS)),
@@ -100,6 +102,15 @@ pub fn render_case(case: &Value) {
             print!("{}", text);
         }
         println!("steps: {:?}", h.steps);
+        return;
+    }
+    if let Ok(c) = serde_json::from_value::<crate::props::c14::Case>(case.clone()) {
+        let ws = crate::props::c14::effective_ws(&c);
+        for f in &ws.files {
+            println!("==== {}", f.loc.rel());
+            print!("{}", crate::render::render(f).text);
+        }
+        println!("layouts: tp={:?} plug={:?} outside_mask={} _pytest={}", c.tp_layout, c.plug_layout, c.outside_mask, c.with_pytest_internal);
         return;
     }
     if let Ok(ws) = serde_json::from_value::<crate::spec::WorkspaceSpec>(case.get("ws").cloned().unwrap_or(case.clone())) {
